@@ -3,6 +3,7 @@ import itertools
 import numpy as np
 from . import common as C
 from . import dataset as D
+from . import dense_common as DC
 
 PID = 'C06'
 PARALLEL = True
@@ -13,11 +14,14 @@ RULE = ('from_sparse: exhaustive (data, column table, requested channels) with <
         'unknown one, trailing dimensions 0..2, int32/int64/uint32 column tables, empty spike lists; '
         'get_features / get_template_features on generated TemplateModel datasets with and without a row '
         '(spike id) table and column table, spike subsets in any order incl. unstored spikes, channel '
-        'permutations; PCA route: bookkeeping + numerical residual test. non-trivial = at least one '
-        'stored value lands in a requested column')
-ASSUMPTIONS = ['PCA route (no feature file): np.cov / np.linalg.eigh are outside the model; only the placement of '
-               'rows (zero rows for spikes without waveforms, shape) is compared, plus a numerical residual test '
-               '(eigen-equation, descending eigenvalues, tolerance 1e-6) that is a test, not a proof']
+        'permutations; PCA route: final features against the Lean model (exact projections of the stored waveforms '
+        'onto the components the real _compute_pcs returned) + numerical residual test of the components. '
+        'non-trivial = at least one stored value lands in a requested column')
+ASSUMPTIONS = ['PCA route (no feature file): np.cov / np.linalg.eigh are outside the model - the components are a parameter '
+               'of the Lean model (theorem getFeaturesPca_spec) and the harness passes the components the real _compute_pcs '
+               'returned; the real features (float32) are compared with the exact projections, tolerance '
+               '2^-18 * max(1, n_samples * max|waveform|); that the components are the leading eigenvectors is a numerical '
+               'residual test (eigen-equation, descending eigenvalues), a test, not a proof']
 SCALE = 4
 
 
@@ -98,19 +102,26 @@ def impl(case):
                 out = m.get_template_features(sid)
                 res = dict(ids=_decode(out, 0), shape=list(out.shape), frac_ok=_frac_ok(out, case))
             elif op == 'pca':
-                from phylib.io.model import compute_features, _compute_pcs
+                from phylib.io.model import _compute_pcs
                 m.save_spikes_subset_waveforms(max_n_spikes_per_template=case['nst'], max_n_channels=case['nc'])
                 sw = m.spike_waveforms
                 ch = case['chans']
                 if sw is None or np.ndim(sw.spike_ids) == 0 or len(sw.spike_ids) < 2:
                     return dict(skip='store holds fewer than 2 spikes (size-1 dimension, out of scope)')
                 out = m.get_features(sid, ch)
-                stored = set(int(x) for x in sw.spike_ids)
                 exist = np.intersect1d(sid, sw.spike_ids)
-                res = dict(shape=list(out.shape), zero_rows=[bool((out[i] == 0).all()) for i in range(len(sid))],
-                           stored=[int(s) in stored for s in sid])
+                # the store as loaded (exact: the raw samples are integers), handed to the Lean model
+                res = dict(shape=list(out.shape), out=np.asarray(out, dtype=np.float64).tolist(),
+                           sw_ids=[int(x) for x in sw.spike_ids],
+                           sw_channels=[[int(c) for c in row] for row in np.asarray(sw.spike_channels)],
+                           sw_waveforms=DC.fracs(np.asarray(sw.waveforms)), nsw=int(m.n_samples_waveforms))
                 if len(exist):
                     w = m.get_waveforms(exist, ch)
+                    res['w'] = DC.fracs(w)
+                    res['scale'] = float(np.abs(np.asarray(w, dtype=np.float64)).max())
+                    # the components are the PARAMETER of the model: what the real _compute_pcs returns for the
+                    # waveforms the real code projects
+                    res['pcs'] = DC.fracs(_compute_pcs(w, 3))
                     # the waveforms the features are computed from are each spike's OWN raw window (C03) on the
                     # channels the store holds for it, zeros elsewhere - recomputed here from the raw data
                     from phylib.io.traces import extract_waveforms
@@ -125,9 +136,6 @@ def impl(case):
                             if not np.array_equal(np.asarray(w[i, :, j], dtype=np.float64), np.asarray(exp_col, dtype=np.float64)):
                                 own = False
                     res['waveforms_own'] = own
-                    fe = compute_features(w)
-                    pos = {int(s): i for i, s in enumerate(sid)}
-                    res['placed'] = all(np.array_equal(out[pos[int(s)]], fe[i].astype(out.dtype)) for i, s in enumerate(exist))
                     pcs = _compute_pcs(w, 3).astype(np.float64)
                     x = w.astype(np.float64)
                     resid = 0.
@@ -142,9 +150,7 @@ def impl(case):
                         top = np.sort(np.linalg.eigvalsh(cov))[::-1][:pcs.shape[0]]
                         order_ok = order_ok and np.allclose(top, lam, atol=1e-4 * max(1., abs(top[0])))
                     res['resid'] = resid
-                    res['scale'] = float(np.abs(x).max())
                     res['order_ok'] = bool(order_ok)
-                    res['proj_ok'] = bool(np.allclose(fe, np.einsum('ijk,ljk->lki', _compute_pcs(w, 3), w)))
         finally:
             m.close()
     return res
@@ -167,7 +173,13 @@ def model_query(case, impl_res):
         return dict(p=PID, op=op, nr=case['nr'], nloc=case['nloc'],
                     cols=[[c if c < 2 ** 31 else c - 2 ** 32 for c in row] for row in case['cols']], chans=case['chans'])
     if op == 'pca':
-        return dict(p=PID, op='from_sparse', nr=0, nloc=1, cols=[], chans=[0])
+        ok = impl_res.get('ok')
+        if not ok or 'skip' in ok:
+            return dict(p=PID, op='from_sparse', nr=0, nloc=1, cols=[], chans=[0])
+        # no requested spike is stored: the components are never computed (any value does)
+        pcs = ok.get('pcs') or [[[0] * len(case['chans'])] * ok['nsw']] * 3
+        return dict(p=PID, op='pca', sw_ids=ok['sw_ids'], sw_channels=ok['sw_channels'], sw_waveforms=ok['sw_waveforms'],
+                    nsw=ok['nsw'], spike_ids=case['spike_ids'], chans=case['chans'], pcs=pcs)
     nr, nloc, ind, rows = _store(case)
     q = dict(p=PID, op='features', nr=nr, nloc=nloc, cols=ind, rows=rows,
              spike_templates=D.expanded(case['spec'])['spike_templates'], spike_ids=case['spike_ids'])
@@ -215,13 +227,28 @@ def judge(case, impl_res, ans):
         ns = len(case['spike_ids'])
         if ok['shape'] != [ns, len(case['chans']), 3]:
             return 'SPEC: PCA-route features have shape %s' % ok['shape']
-        for i, (z, s) in enumerate(zip(ok['zero_rows'], ok['stored'])):
-            if not s and not z:
-                return 'SPEC: PCA route: spike without extracted waveform has non-zero features'
+        if 'pcs' in ok and len(ok['pcs']) != 3:
+            return 'SPEC: PCA route: %d principal components per channel instead of three' % len(ok['pcs'])
+        if m is None:
+            return 'MACHINERY: Lean model raises on an in-domain PCA-route request'
+        if m != ans['ok']['spec']:
+            return 'MACHINERY: Lean model of the PCA route differs from its closed form (contradicts getFeaturesPca_spec)'
         if ok.get('waveforms_own') is False:
             return 'SPEC: PCA route: the waveform a spike\'s features are computed from is not that spike\'s own raw window on its stored channels'
-        if ok.get('placed') is False or ok.get('proj_ok') is False:
-            return 'SPEC: PCA route: features are not the projections placed at the requested positions'
+        if 'w' in ok and ok['w'] != ans['ok']['block']:
+            return ('SPEC: PCA route: the waveforms the components are computed from are not the stored waveforms of the '
+                    'requested stored spikes (zero where a channel is not stored), in increasing spike order')
+        # final features against the exact projections onto the components the real code computed; float32 output
+        # of a float64 sum: |impl - exact| <= 2^-18 * max(1, n_samples * max|waveform|)  (DESIGN.md §3, float32 paths)
+        tol = 2.0 ** -18 * max(1., ok['nsw'] * ok.get('scale', 0.))
+        exact = np.array([[[DC.to_float(x) for x in r] for r in blk] for blk in m], dtype=np.float64).reshape(ok['shape'])
+        got = np.array(ok['out'], dtype=np.float64).reshape(ok['shape'])
+        if got.size and not (np.abs(got - exact) <= tol).all():
+            i = int(np.argmax(np.abs(got - exact).reshape(ns, -1).max(axis=1)))
+            stored = case['spike_ids'][i] in ok['sw_ids']
+            return ('SPEC: PCA route: row %d (spike %d, %s) is not %s' % (
+                i, case['spike_ids'][i], 'stored' if stored else 'not stored',
+                'the projection of its stored waveform onto the three components of each channel' if stored else 'zero'))
         if 'resid' in ok and (ok['resid'] > 1e-3 * max(1., ok['scale'] ** 2) or not ok['order_ok']):
             return 'SPEC: PCA route: components are not the leading eigenvectors (residual %g)' % ok['resid']
         return None
@@ -237,6 +264,10 @@ def judge(case, impl_res, ans):
             return 'MACHINERY: Lean model differs from the python oracle'
         if ok['ids'] != exp:
             return 'SPEC: from_sparse differs from (stored value whose column names the channel, else zero)'
+        if ok['shape'] != [case['nr'], len(case['chans'])] + [2] * case['trailing']:      # theorem fromSparse_shape
+            return 'SPEC: from_sparse output has shape %s' % ok['shape']
+        if ok['dtype'] != case.get('dtype', 'float64'):
+            return 'SPEC: from_sparse changed the dtype of the data (%s)' % ok['dtype']
         if ok.get('args_changed'):
             return 'SPEC: from_sparse modified the data / column table / channel list passed by the caller'
         if ok.get('second_differs'):
@@ -244,11 +275,19 @@ def judge(case, impl_res, ans):
         return None
     exp = oracle_stored(case)
     got = ok['ids']
+    repeated = _store(case)[3] is not None and len(set(case['spike_ids'])) < len(case['spike_ids'])
     if len(got) != len(exp):
         return 'SPEC: %d rows returned for %d requested spikes' % (len(got), len(exp))
+    # theorem getFeatures_shape: one row per requested spike, one column per requested channel / template
+    exp_shape = ([len(exp), len(case['chans']), len(case['spec']['pc_features'][0])] if op == 'features'
+                 else [len(exp), len(case['spec']['templates'])])
+    if ok['shape'] != exp_shape:
+        return 'SPEC: %s returned an array of shape %s, expected %s' % (op, ok['shape'], exp_shape)
     for i, (g, e, mm) in enumerate(zip(got, exp, m)):
         if e is not None:
-            if mm != e:
+            # a repeated spike id against a store WITH a row table is outside the hypotheses of getFeatures_spec (the
+            # model mirrors the code there, it is not the specification): only the property's own oracle judges it
+            if mm != e and not repeated:
                 return 'MACHINERY: Lean model differs from the python oracle on a stored spike'
             if g != e:
                 return 'SPEC: row %d (spike %d) differs from the densified stored row' % (i, case['spike_ids'][i])
@@ -270,6 +309,20 @@ def tally(rep, case, impl_res, ans):
     if case['op'] == 'from_sparse':
         rep.count('trailing:%d' % case['trailing'])
         rep.count('cdtype:' + case.get('cdtype', 'int64'))
+    elif case['op'] == 'pca':
+        ok = impl_res.get('ok') or {}
+        if 'skip' in ok or 'sw_ids' not in ok:
+            rep.count('pca:skipped or raised')
+        else:
+            st = [s in ok['sw_ids'] for s in case['spike_ids']]
+            rep.count('pca:compared with the Lean model')
+            rep.count('pca:rows of stored spikes', sum(st))
+            rep.count('pca:rows of unstored spikes', len(st) - sum(st))
+            rep.count('pca:store rows padded with -1', int(any(-1 in r for r in ok['sw_channels'])))
+            if case['chans'] != sorted(case['chans']):
+                rep.count('pca:unsorted channels')
+            if case['spike_ids'] != sorted(case['spike_ids']):
+                rep.count('pca:unsorted spikes')
     elif case['op'] in ('features', 'tfeatures'):
         nr, nloc, ind, rows = _store(case)
         rep.count('row_table:%s' % (rows is not None))
@@ -279,6 +332,8 @@ def tally(rep, case, impl_res, ans):
         rep.count('store_dtype:%s' % ('float64 (values need double precision)' if case['spec'].get('feature_frac') else 'float32'))
         if case['spike_ids'] != sorted(case['spike_ids']):
             rep.count('unsorted_request')
+        if len(set(case['spike_ids'])) < len(case['spike_ids']):
+            rep.count('repeated_spike_id (store without row table)' if rows is None else 'repeated_spike_id (row table)')
         if rows is not None and set(case['spike_ids']) - set(rows):
             rep.count('requests_unstored_spike')
 
@@ -378,10 +433,14 @@ def gen(tier, rng):
             spec['pc_features'] = [[[v + FRAC for v in row] for row in blk] for blk in spec['pc_features']]
             spec['template_features'] = [[v + FRAC for v in row] for row in spec['template_features']]
         sids = rng.sample(range(ns), rng.randrange(0 if i % 9 == 0 else 1, min(ns, 6) + 1))
+        if sids and 'pc_feature_spike_ids' not in spec and i % 2:
+            sids = sids + [sids[0]]            # a repeated request is served at both positions when every spike is stored
         yield dict(p=PID, op='features', spec=spec, spike_ids=sids, npcs_pow2=True,
                    chans=rng.sample(range(nc), rng.randrange(1, nc + 1)), chkind=rng.pick(['list', 'array', 'uint32', 'int32', 'uint64']),
                    sidkind=rng.pick(['int64', 'int64', 'list', 'uint64', 'int32', 'uint32']))
         sids2 = rng.sample(range(ns), rng.randrange(1, min(ns, 6) + 1))
+        if 'template_feature_spike_ids' not in spec and i % 2:
+            sids2 = [sids2[-1]] + sids2
         yield dict(p=PID, op='tfeatures', spec=spec, spike_ids=sids2, sidkind=rng.pick(['int64', 'list', 'uint64', 'uint32']))
     # many spikes, few stored rows with large spike ids, requests in arbitrary order: the id lookups
     # (index in the row table) run in their sparse regime
@@ -416,4 +475,4 @@ def gen(tier, rng):
         if i % 2:
             sids_p = sorted(sids_p)
         yield dict(p=PID, op='pca', spec=spec, spike_ids=sids_p,
-                   chans=sorted(rng.sample(range(nc), rng.randrange(1, nc + 1))), nst=rng.randrange(1, 4), nc=nc)
+                   chans=(sorted if i % 4 < 2 else list)(rng.sample(range(nc), rng.randrange(1, nc + 1))), nst=rng.randrange(1, 4), nc=nc)
